@@ -26,7 +26,11 @@ JSON_KIND = {"po": "POSITION_ONLY", "pk": "POSITION_OR_NAME", "va": "POSITIONAL_
 
 INT_DEFAULTS = ["0", "1", "7", "9223372036854775808", "1000000000000000000000000000000", "0xff", "1_000", "0b101"]
 FLOAT_DEFAULTS = ["0.0", "1.5", "1e-05", "1e16", "2.25", "123456.789", "1e400"]
-STR_DEFAULTS = ['"a"', '""', '"hello world"', '"x_y"', '"A1"', '"with space "', '"ünï"']
+STR_DEFAULTS = [
+    '"a"', '""', '"hello world"', '"x_y"', '"A1"', '"with space "', '"ünï"',
+    # characters the stub has to escape: the value (not only the syntax) has to survive
+    "'say \"hi\"'", "'\"'", "'\"\"'", "'back\\\\slash'", "'\\\\'", "'\\\\\"'", "'\"\\\\'", "'tab\\tnl\\n'", "'{\"k\": 1}'", "'a\\\\\\\\b'", "\"it's\"",
+]
 OTHER_DEFAULTS = ["True", "False", "None"]
 SIGNED = ["-1", "+1", "-2.5", "+0.5", "-0.0", "-9223372036854775809"]
 NONLIT = ["CONST", "make()", "[]", "()", "{}", "(1, 2)"]
@@ -58,6 +62,13 @@ def default_masks(shape):
 
 def _pyvalue(src: str):
     return eval(src, {})  # noqa: S307 - our own literal text
+
+
+def _unquote(text: str):
+    try:
+        return sds.unquote_string(text)
+    except Exception:  # noqa: BLE001 - not a well-formed literal: not equal to anything
+        return None
 
 
 class SigGen:
@@ -283,8 +294,57 @@ def make_judge(chk: Check):
         api = ss.api()
         aidx = api_index(api) if api else {}
         byname = ss.by_pyname()
+        def judge_json(g, exp, where) -> bool:
+            ok = True
+            if aidx:
+                fn = aidx.get("functions", {}).get(g["id"])
+                if fn is None:
+                    viols.append(Viol("json-function-missing", where, {"id": g["id"]}))
+                    ok = False
+                else:
+                    jparams = [aidx.get("parameters", {}).get(pid) for pid in fn["parameters"]]
+                    jexp = ([{"name": g["receiver"], "kind": "IMPLICIT", "default": None}] if g["receiver"] else []) + [
+                        {"name": p["name"], "kind": JSON_KIND[p["kind"]], "default": p["default"]} for p in exp
+                    ]
+                    if len(jparams) != len(jexp) or any(j is None for j in jparams):
+                        viols.append(Viol("json-param-count", where, {"id": g["id"], "json": fn["parameters"]}))
+                        ok = False
+                    else:
+                        for jp, je in zip(jparams, jexp, strict=True):
+                            if jp["name"] != je["name"]:
+                                viols.append(Viol("json-param-name", where, {"id": g["id"], "json": jp["name"], "expected": je["name"]}))
+                                ok = False
+                                break
+                            if jp["assigned_by"] != je["kind"]:
+                                viols.append(Viol("json-assigned-by", f"{where}:{je['kind']}", {"id": jp["id"], "json": jp["assigned_by"], "expected": je["kind"]}))
+                                ok = False
+                            dflt = je["default"]
+                            if dflt is not None and dflt[0] == "lit":
+                                if jp["is_optional"] is not True:
+                                    viols.append(Viol("json-is-optional", f"{where}:{je['kind']}", {"id": jp["id"], "json": jp["is_optional"], "expected": True}))
+                                    ok = False
+                                want = dflt[2]
+                                jv = jp["default_value"]
+                                if isinstance(want, str):
+                                    # the JSON holds the string as a quoted literal (escaped like the one in the stub)
+                                    good = jv == want or (isinstance(jv, str) and len(jv) >= 2 and jv[0] == jv[-1] == '"' and _unquote(jv) == want)
+                                elif isinstance(want, float) and (math.isinf(want) or math.isnan(want)):
+                                    good = isinstance(jv, float) and repr(jv) == repr(want)
+                                else:
+                                    good = type(jv) is type(want) and jv == want
+                                if not good:
+                                    viols.append(Viol("json-default-value", f"{where}:{je['kind']}:{type(want).__name__}", {"id": jp["id"], "json": jv, "expected": dflt[1]}))
+                                    ok = False
+                            elif dflt is None and jp["is_optional"] is not False:
+                                viols.append(Viol("json-is-optional", f"{where}:{je['kind']}", {"id": jp["id"], "json": jp["is_optional"], "expected": False}))
+                                ok = False
+
+            return ok
+
         for g in case.meta["gt"]:
             where = f"{g['role']}"
+            json_ok = judge_json(g, g["params"], where)
+            chk.counters["signatures_judged_in_api_json"] += 1
             hits = byname.get(g["path"], [])
             hits = [h for h in hits if h[1].py_module == f"pk.{g['mod']}"]
             if len(hits) != 1:
@@ -329,48 +389,7 @@ def make_judge(chk: Check):
                                 ),
                             )
                             ok = False
-            # API JSON
-            if aidx:
-                fn = aidx.get("functions", {}).get(g["id"])
-                if fn is None:
-                    viols.append(Viol("json-function-missing", where, {"id": g["id"]}))
-                    ok = False
-                else:
-                    jparams = [aidx.get("parameters", {}).get(pid) for pid in fn["parameters"]]
-                    jexp = ([{"name": g["receiver"], "kind": "IMPLICIT", "default": None}] if g["receiver"] else []) + [
-                        {"name": p["name"], "kind": JSON_KIND[p["kind"]], "default": p["default"]} for p in exp
-                    ]
-                    if len(jparams) != len(jexp) or any(j is None for j in jparams):
-                        viols.append(Viol("json-param-count", where, {"id": g["id"], "json": fn["parameters"]}))
-                        ok = False
-                    else:
-                        for jp, je in zip(jparams, jexp, strict=True):
-                            if jp["name"] != je["name"]:
-                                viols.append(Viol("json-param-name", where, {"id": g["id"], "json": jp["name"], "expected": je["name"]}))
-                                ok = False
-                                break
-                            if jp["assigned_by"] != je["kind"]:
-                                viols.append(Viol("json-assigned-by", f"{where}:{je['kind']}", {"id": jp["id"], "json": jp["assigned_by"], "expected": je["kind"]}))
-                                ok = False
-                            dflt = je["default"]
-                            if dflt is not None and dflt[0] == "lit":
-                                if jp["is_optional"] is not True:
-                                    viols.append(Viol("json-is-optional", f"{where}:{je['kind']}", {"id": jp["id"], "json": jp["is_optional"], "expected": True}))
-                                    ok = False
-                                want = dflt[2]
-                                jv = jp["default_value"]
-                                if isinstance(want, str):
-                                    good = jv in (want, f'"{want}"')
-                                elif isinstance(want, float) and (math.isinf(want) or math.isnan(want)):
-                                    good = isinstance(jv, float) and repr(jv) == repr(want)
-                                else:
-                                    good = type(jv) is type(want) and jv == want
-                                if not good:
-                                    viols.append(Viol("json-default-value", f"{where}:{je['kind']}:{type(want).__name__}", {"id": jp["id"], "json": jv, "expected": dflt[1]}))
-                                    ok = False
-                            elif dflt is None and jp["is_optional"] is not False:
-                                viols.append(Viol("json-is-optional", f"{where}:{je['kind']}", {"id": jp["id"], "json": jp["is_optional"], "expected": False}))
-                                ok = False
+            ok = ok and json_ok
             chk.case_ok(sig)
             if ok and len(exp) >= 3:
                 chk.sample({"python": g["id"] + "(" + render_params(exp, g["receiver"]) + ")", "stub": [(p.pyname, p.default[1] if p.default else None) for p in got]}, limit=3)
